@@ -71,7 +71,10 @@ class Key:
             octave, pitch = divmod(note, self.scale.octave_size)
             nearest_semitone = None
             nearest_distance = None
-            for semitone in self.semitones + [self.scale.octave_size]:
+            semitones = self.semitones
+            octave_size = self.scale.octave_size
+            # candidates: the key's pitch classes, plus the nearest in-key notes of the octaves below and above
+            for semitone in semitones + [semitones[0] + octave_size, semitones[-1] - octave_size]:
                 distance = abs(semitone - pitch)
                 if nearest_distance is None or distance < nearest_distance:
                     nearest_semitone = semitone
